@@ -2,8 +2,8 @@
 
 Every participant of a schedule is a separate forked process.  In the worker - and only there -
   * the hard-coded paths /run/lock, /run/ebpf and /sys/fs/bpf are mapped into a private directory
-    (`root`): ebpfcat.ebpfcat.os / tempfile / shutil / open and ebpfcat.lock.os / fcntl are replaced
-    by proxies that map the path, report "about to run <call>" to the controller over a pipe
+    (`root`): ebpfcat.ebpfcat.os / fcntl / tempfile / shutil / open and ebpfcat.lock.os / fcntl are
+    replaced by proxies that map the path, report "about to run <call>" to the controller over a pipe
     ("gate") and wait for "go";
   * bpf.create_map / obj_pin / obj_get, EtherXDP.attach / detach / close and EtherCat.connect (there
     is no NIC and no bpffs here) are replaced by recorders that keep the shared "kernel" state in
@@ -13,10 +13,11 @@ Every participant of a schedule is a separate forked process.  In the worker - a
     with "go" (a counting fallback otherwise), because the specification leaves them free: the value
     the schedule chose, preceded - for the FMMU window - by one adversarial draw, a number whose bit
     is set in the bitmap file at that moment (a correct loop rejects it and draws again);
-  * a blocking lockf is attempted non-blocking after each "go": when it would block the worker
-    reports "blocked" and parks at the same gate again, so the controller never hangs in it.
+  * a blocking lockf / flock is attempted non-blocking after each "go": when it would block the
+    worker reports "blocked" and parks at the same gate again, so the controller never hangs in it;
+    os.close of the interface mutex's descriptor (which releases the flock) is a gated step.
 
-Controller -> worker:  ("start", root, name)  ("go", [choices])  ("stop",)  ("quit",)
+Controller -> worker:  ("start", root, name, mode)  ("go", [choices])  ("stop",)  ("quit",)
 A worker process serves one run after the other (a new "start" after "done" / "exc"); a process that
 was killed or is left parked at a gate is replaced.
 Worker -> controller:  (kind, ..., obs, snap) with kind in
@@ -29,7 +30,16 @@ Worker -> controller:  (kind, ..., obs, snap) with kind in
 
 `replay(...)` drives one schedule ([{p, a, c}, ...], a = "crash" kills the process) and then lets
 every participant run to its end (all leave); after every step the shared state is read from the
-private directory.  Nothing here judges anything: the events go to TLC (spec/ParallelTrace.tla).
+private directory.  mode "fmmu": the participants are bare `FMMULock(path)` ... `remove()` users.
+The schedule may come from another protocol than the code's (the earlier, unrepaired ones):
+  * a participant parked at a call the schedule does not name passes the calls in between (at most
+    8, never leaving its context unasked) until it is at the named call; calls passed this way are
+    remembered and a later step naming one of them is dropped;
+  * a participant that would have to wait in flock (interface mutex) or lockf (bitmap) reports
+    "blocked" and stays parked there; the step is dropped and the controller goes on with the next
+    step of the schedule.  Nothing depends on timing; the receive timeout only guards against a
+    process that never answers.
+Nothing here judges anything: the events go to TLC (spec/ParallelTrace.tla).
 """
 import json
 import multiprocessing
